@@ -260,6 +260,18 @@ impl G {
         variants.push(Variant { name: self.vname(&name, 0), args: vec![(Ty::cls(&e), ANY)] });
         self.feat("enum-single-variant-enum-payload");
       }
+      13 => {
+        // several variants with the same payload type (or-patterns can share bindings)
+        let n = 2 + self.rng.below(3);
+        let payload = if self.rng.chance(3, 4) { (Ty::Int, self.int_field_range()) } else { (Ty::Str, SLEN) };
+        for i in 0..n {
+          variants.push(Variant { name: self.vname(&name, i), args: vec![payload.clone()] });
+        }
+        if self.rng.chance(1, 2) {
+          variants.push(Variant { name: self.vname(&name, n), args: vec![] });
+        }
+        self.feat("enum-same-payload-variants");
+      }
       _ => {
         rec = true;
         variants.push(Variant { name: self.vname(&name, 0), args: vec![(Ty::Int, (-50, 50))] });
@@ -663,7 +675,7 @@ impl G {
     self.nlibs = 1 + self.rng.below(3);
     let prof = self.prof;
     // the template schedule
-    let mut enum_shapes: Vec<usize> = (0..13).collect();
+    let mut enum_shapes: Vec<usize> = (0..14).collect();
     for i in (1..enum_shapes.len()).rev() {
       let j = self.rng.below(i + 1);
       enum_shapes.swap(i, j);
@@ -755,7 +767,7 @@ impl G {
       let e = enum_tys[self.rng.below(enum_tys.len())].clone();
       pool.push(if self.rng.chance(1, 2) { Ty::option(e) } else { Ty::pair(e.clone(), Ty::option(Ty::Int)) });
     }
-    if self.rng.chance(1, 4) || prof == Profile::Closures {
+    if self.rng.chance(1, 2) || prof == Profile::Closures {
       pool.push(Ty::func(vec![Ty::Int], Ty::Int));
     }
     if prof == Profile::Closures {
